@@ -20,6 +20,8 @@ over the negative rows of the `k`-step kernel's expectation of the energy gradie
 import QV.Model.CDStep
 import QV.Lemmas.GradLin
 import QV.Lemmas.CDChain
+import QV.Model.CallForm
+import QV.Lemmas.CallForm
 import QV.Props.C05
 import Mathlib.Data.List.Basic
 
@@ -317,6 +319,47 @@ theorem C06_fit_trace_length (next : ℕ → ℝ → ℝ) (lr0 eps : ℝ) (dict 
     ∧ (fitTraceDM next lr0 eps dict amd phd es).length = (es.map List.length).sum := by
   simp only [fitTracePos, fitTraceCplx, fitTraceDM, foldTrace_length, tagEpochs_length, and_self]
 
+/-! ## Hardening round 4: the scheduler in runs that are cut short; call forms -/
+
+/-- **C06.4d** the learning rate LEFT in the optimizer (and the scheduler's step count) when `fit` returns: for ANY list of entered
+epochs — full ones, ones cut short by a stop request after `m ≥ 0` batches — the rate is the one after exactly `epochs.length`
+scheduler steps and the scheduler has been stepped `epochs.length` times: once per entered epoch, independently of how many batches
+the epoch processed. Under `StepLR(s, gamma)`: `lr · gamma ^ ⌊E / s⌋`. (An implementation that skips `scheduler.step()` in the epoch in
+which a stop was requested leaves `lrAfter … (E − 1)` instead.) -/
+theorem C06_final_lr {β : Type} (next : ℕ → ℝ → ℝ) (gamma lr0 : ℝ) (s : ℕ) (epochs : List (List β)) :
+    lrEnd next lr0 0 epochs = lrAfter next lr0 epochs.length
+    ∧ schedSteps epochs = epochs.length
+    ∧ lrEnd (stepLRNext gamma s) lr0 0 epochs = lr0 * gamma ^ (epochs.length / s)
+    ∧ lrEnd noSched lr0 0 epochs = lr0 := by
+  have h := fun nx => lrEnd_eq (β := β) nx lr0 0 epochs
+  simp only [lrAfter, Nat.zero_add] at h
+  exact ⟨h next, schedSteps_eq epochs, by rw [h, (C06_steplr gamma lr0 s epochs.length).1],
+    by rw [h, (C06_steplr gamma lr0 s epochs.length).2.2]⟩
+
+/-- the final rate is consistent with the per-batch tagging: a further epoch appended to the run would be processed with exactly the
+rate `lrEnd` reports (so `lrEnd` IS the rate "in force after the run") -/
+theorem C06_final_lr_next_epoch {β : Type} (next : ℕ → ℝ → ℝ) (lr0 : ℝ) (epochs : List (List β)) (bs : List β) :
+    tagEpochs next lr0 0 (epochs ++ [bs]) = tagEpochs next lr0 0 epochs ++ bs.map fun b => (lrEnd next lr0 0 epochs, b) := by
+  have key : ∀ (lr : ℝ) (e : ℕ), tagEpochs next lr e (epochs ++ [bs])
+      = tagEpochs next lr e epochs ++ bs.map fun b => (lrEnd next lr e epochs, b) := by
+    induction epochs with
+    | nil => intro lr e; simp [tagEpochs, lrEnd]
+    | cons x rest ih => intro lr e; simp only [List.cons_append, tagEpochs, lrEnd, ih, List.append_assoc]
+  exact key lr0 0
+
+/-- **C06.5 (call forms)** `k`, `lr`, `optimizer`, `optimizer_args`, `scheduler`, `scheduler_args` (and every other documented parameter)
+given POSITIONALLY in the documented order mean what the keyword call means: the values this property speaks about (number of Gibbs
+steps, learning rate, scheduler) are those the caller wrote at the documented positions. Same statement as `C07_positional_call`. -/
+theorem C06_positional_call (hasBases : Bool) (ps₁ ps₂ : List String) (hsig : CallForm.fitParams hasBases = ps₁ ++ ps₂)
+    (vs₁ : List CallForm.Arg) (hlen : vs₁.length = ps₁.length) (kw : List (String × CallForm.Arg))
+    (hkw : ∀ p ∈ ps₁, CallForm.kwLookup kw p = none) :
+    CallForm.fitBind hasBases vs₁ kw = CallForm.fitBind hasBases [] (ps₁.zip vs₁ ++ kw)
+    ∧ ∀ r, CallForm.fitBind hasBases vs₁ kw = .ok r →
+        (∀ p v, (p, v) ∈ ps₁.zip vs₁ → CallForm.bound r p = some v)
+        ∧ (∀ p ∈ ps₂, CallForm.bound r p = CallForm.kwOrDefault CallForm.fitDefault kw p)
+        ∧ (hasBases = false → CallForm.bound r "input_bases" = some CallForm.Arg.none) :=
+  CallForm.fitBind_positional hasBases ps₁ ps₂ hsig vs₁ hlen kw hkw
+
 /-- non-vacuity: a concrete step with `|neg| ≠ |pos|` -/
 example : let am : RBM ℝ 2 1 := ⟨fun _ _ => 0.5, fun _ => -0.25, fun _ => 1⟩
     ∀ d, (batchGradAm (positivePhasePos am (fun (_ : Fin 3) _ => 1)) am (fun (_ : Fin 2) _ => 0)).pair d
@@ -330,5 +373,15 @@ example : tagEpochs (stepLRNext (1 / 2 : ℚ) 1) 8 0 [["a", "b"], [], ["c"]] = [
 
 /-- non-vacuity of the trace: integer "parameters", update = add the batch -/
 example : foldTrace (fun (p : ℤ) (b : ℤ) => p + b) 10 [1, 2, 3] = [11, 13, 16] := rfl
+
+/-- non-vacuity of the final rate: 3 entered epochs, the last cut short after one batch, `StepLR(1, 1/2)` from `lr = 8`: the optimizer is
+left with `8 · (1/2)^3 = 1` (an implementation skipping the step of the cut-short epoch would leave 2) -/
+example : lrEnd (β := String) (stepLRNext (1 / 2 : ℚ) 1) 8 0 [["a", "b"], ["c", "d"], ["e"]] = 1 := by
+  simp [lrEnd, stepLRNext]; norm_num
+
+/-- `fit(data, 3, 4, 2, 1, lr)` on a complex state: `k = 1`, `lr` the sixth argument, `input_bases` the seventh -/
+example : (CallForm.fitBind true [.ref 7, .int 3, .int 4, .int 2, .int 1, .ref 8, .ref 9] []).toOption.map
+      (fun r => (CallForm.bound r "k", CallForm.bound r "lr", CallForm.bound r "input_bases", CallForm.bound r "optimizer"))
+    = some (some (.int 1), some (.ref 8), some (.ref 9), some (.ref CallForm.refDefaultOptimizer)) := by rfl
 
 end QV.Props
